@@ -97,7 +97,7 @@ def kind_of(feat):
         return 3
     if feat == "trace":
         return 4
-    if feat == NONSCALAR_TEMP:
+    if feat in (NONSCALAR_TEMP, "qpi_pha", "qpi_amp"):
         return 5
     return 0
 
@@ -276,6 +276,28 @@ def build_source(src, workdir):
             else:
                 fmeta["channel count"] = src["fl"]["count"]
             spec["meta"]["fluorescence"] = fmeta
+        if src.get("wide"):
+            # dtypes wider than what the fixtures use: int32 traces with
+            # values beyond int16, a float32 scalar
+            wrng = random.Random(src["seed"] + 29)
+            if "trace" in spec["features"]:
+                spec["features"]["trace"] = {
+                    k: (v.astype(np.int32)
+                        + np.array([[wrng.choice([0, 70000, -70000, 2 ** 20])
+                                     for _ in range(v.shape[1])]
+                                    for _ in range(v.shape[0])],
+                                   dtype=np.int32))
+                    for k, v in spec["features"]["trace"].items()}
+            fsc = sorted(f for f in spec["features"] if f in gen.FLOAT_SCALARS)
+            if fsc:
+                spec["features"][fsc[-1]] = \
+                    spec["features"][fsc[-1]].astype(np.float32)
+        if src.get("qpi"):
+            qrng = random.Random(src["seed"] + 31)
+            spec["features"]["qpi_pha"] = np.array(
+                [[[qrng.randint(-40, 40) / 8 for _ in range(gen.IMG_SHAPE[1])]
+                  for _ in range(gen.IMG_SHAPE[0])] for _ in range(n)],
+                dtype=np.float32)
         if src.get("neg_uint"):
             # a feature the writer stores as uint32 holding negative values
             # (as the int16 fl2_max of tdms measurements does)
@@ -328,6 +350,23 @@ def build_source(src, workdir):
                 gen.write_spec(path, spec)
                 write_raw_logs_tables(path, truth["logs"], truth["tables"],
                                       empty_log)
+                if src.get("wide"):
+                    # store the wide features with raw h5py so that the source
+                    # does not depend on the writer under test
+                    import h5py
+                    with h5py.File(path, "a") as h5:
+                        ev = h5["events"]
+                        for k, v in spec["features"].get("trace", {}).items():
+                            del ev["trace"][k]
+                            ev["trace"].create_dataset(
+                                k, data=v, maxshape=(None, v.shape[1]),
+                                chunks=True)
+                        for f, v in spec["features"].items():
+                            if isinstance(v, np.ndarray) and \
+                                    v.dtype == np.float32 and v.ndim == 1:
+                                del ev[f]
+                                ev.create_dataset(f, data=v, maxshape=(None,),
+                                                  chunks=True)
                 if src.get("short"):
                     # aborted acquisition: some features hold fewer events
                     import h5py
@@ -336,11 +375,16 @@ def build_source(src, workdir):
                         for f, drop in src["short"].items():
                             if f not in ev:
                                 continue
-                            dsets = ([ev[f][k] for k in ev[f]] if f == "trace"
-                                     else [ev[f]])
-                            for dset in dsets:
-                                dset.resize(max(1, dset.shape[0] - drop),
-                                            axis=0)
+                            if f == "trace":
+                                # one drop for all traces or one per trace
+                                for k in ev[f]:
+                                    dk = drop.get(k, 0) if isinstance(
+                                        drop, dict) else drop
+                                    ev[f][k].resize(
+                                        max(1, ev[f][k].shape[0] - dk), axis=0)
+                            else:
+                                ev[f].resize(max(1, ev[f].shape[0] - drop),
+                                             axis=0)
                 root = dclab.new_dataset(path)
         if src.get("temp"):
             v = np.array([[rng.randint(-9, 9) / 4 for _ in range(3)]
@@ -351,6 +395,7 @@ def build_source(src, workdir):
                 np.array([rng.randint(-50, 50) / 8 for _ in range(n)]))
     keep.append(root)
     ds = root
+    rootmap = np.arange(len(root))
     if t.startswith("hier-"):
         pm = np.ones(len(root), dtype=bool)
         if "parent_keep" in src:
@@ -363,7 +408,83 @@ def build_source(src, workdir):
         root.apply_filter()
         ds = dclab.new_dataset(root)
         keep.append(ds)
+        # ground truth by explicit index arithmetic, not by the child's view
+        rootmap = np.flatnonzero(pm)
+        if src.get("levels", 1) >= 2:
+            pm2 = np.ones(len(ds), dtype=bool)
+            for i in src.get("parent_drop2", []):
+                if i < len(pm2):
+                    pm2[i] = False
+            ds.filter.manual[:] = pm2
+            ds.apply_filter()
+            ds = dclab.new_dataset(ds)
+            keep.append(ds)
+            rootmap = rootmap[np.flatnonzero(pm2)]
+        assert len(rootmap) == len(ds), "hierarchy setup"
+    truth_root = dict(root=root, rootmap=rootmap)
+    if truth is None:
+        truth = {}
+    truth["_root"] = truth_root
     return ds, keep, truth
+
+
+def apply_filters(ds, mask, flt):
+    """Set the manual mask and, when asked, real filter settings (box range,
+    polygon, remove invalid events, limit events); returns ds.filter.all and
+    whether it differs from ds.filter.manual."""
+    import numpy as np
+    import dclab
+    ds.filter.manual[:] = mask
+    if flt:
+        fsc = [f for f in sorted(ds.features_innate)
+               if kind_of(f) == 0 and f not in UINT_FEATS
+               and f in ds.features_scalar][:3]
+        cfgf = ds.config["filtering"]
+        if flt.get("box") and fsc:
+            f = fsc[0]
+            v = np.sort(np.asarray(ds[f][:], dtype=float))
+            v = v[np.isfinite(v)]
+            if len(v):
+                qlo, qhi = flt["box"]
+                lo = v[min(len(v) - 1, int(qlo * len(v)))]
+                hi = v[min(len(v) - 1, int(qhi * len(v)))]
+                if lo < hi:
+                    cfgf[f + " min"] = float(lo)
+                    cfgf[f + " max"] = float(hi)
+        if flt.get("invalid"):
+            cfgf["remove invalid events"] = True
+        if flt.get("limit"):
+            cfgf["limit events"] = int(flt["limit"])
+        if flt.get("polygon") and len(fsc) >= 2:
+            fx, fy = fsc[-1], fsc[-2]
+            x = np.asarray(ds[fx][:], dtype=float)
+            y = np.asarray(ds[fy][:], dtype=float)
+            x, y = x[np.isfinite(x)], y[np.isfinite(y)]
+            if len(x) and len(y):
+                a, b = flt["polygon"]
+                x0, x1 = x.min() - 1, x.min() + a * (x.max() - x.min()) + .06
+                y0, y1 = y.min() - 1, y.min() + b * (y.max() - y.min()) + .06
+                pf = dclab.PolygonFilter(
+                    axes=(fx, fy),
+                    points=[[x0, y0], [x1, y0], [x1, y1], [x0, y1]])
+                ds.polygon_filter_add(pf)
+    try:
+        ds.apply_filter()
+    except Exception:
+        # computing the filters is not C02's subject (C03/C06): some sources
+        # cannot evaluate every ancillary feature ('remove invalid events'
+        # on dict data with contours); fall back to weaker settings
+        ds.config["filtering"]["remove invalid events"] = False
+        try:
+            ds.apply_filter()
+        except Exception:
+            for k in list(ds.config["filtering"].keys()):
+                if k.endswith(" min") or k.endswith(" max"):
+                    ds.config["filtering"].pop(k)
+            ds.config["filtering"]["polygon filters"] = []
+            ds.apply_filter()
+    fall = np.array(ds.filter.all, dtype=bool)
+    return fall, bool(np.any(fall != np.array(ds.filter.manual, dtype=bool)))
 
 
 def root_format(ds):
@@ -396,9 +517,18 @@ def run_export_case(case, workdir):
         for i in case["mask"]:
             if i < n:
                 mask[i] = True
-        ds.filter.manual[:] = mask
-        ds.apply_filter()
-        assert np.array_equal(ds.filter.all, mask), "filter setup"
+        mask, real_filter = apply_filters(ds, mask, case.get("filters"))
+        if not case.get("filters"):
+            assert not real_filter, "filter setup"
+        res["info"]["real_filter"] = real_filter
+        troot = truth["_root"]["root"]
+        rootmap = truth["_root"]["rootmap"]
+        prefix = case.get("prefix", "src_")
+
+        def truth_event(f, key, i):
+            # the event of the ROOT dataset that event i of ds stands for
+            rd = troot["trace"][key] if f == "trace" else troot[f]
+            return rd[int(rootmap[int(i)])]
         fmode = case.get("fmode", "list")
         basins = bool(case.get("basins", False))
         if fmode == "default":
@@ -407,6 +537,11 @@ def run_export_case(case, workdir):
             feats_req = []
         else:
             feats_req = [f for f in case["features"] if f in ds]
+            if "contour" in feats_req and "contour" not in ds.features_innate:
+                try:            # ancillary contour (computed from the mask)
+                    ds["contour"][0]
+                except Exception:
+                    feats_req = [f for f in feats_req if f != "contour"]
         uniq = sorted(set(feats_req))
         names = {f: i for i, f in enumerate(uniq)}
         trnames = sorted(set(k for f in uniq if f == "trace"
@@ -416,6 +551,7 @@ def run_export_case(case, workdir):
         skip = bool(case["skip_checks"])
         # --- source description for model and oracle ----------------------
         src_tok = {}
+        src_dtype = {}
         coq_feats = []
         lens = []
         nonslice_feats = []
@@ -429,8 +565,11 @@ def run_export_case(case, workdir):
                 if k == 1:
                     toks = [int(data[i]) for i in range(ln)]
                 else:
-                    toks = [tok(data[int(i)]) for i in range(ln)]
+                    toks = [tok(truth_event(f, key, i)) for i in range(ln)]
                 src_tok[(f, key)] = toks
+                src_dtype[(f, key)] = np.dtype(getattr(data, "dtype", None)
+                                               or np.asarray(data[0]).dtype) \
+                    if k != 2 else None
                 if not fancy:
                     nonslice_feats.append(f)
                 cparts.append("(%d, %d, %d, %d, %s)" % (
@@ -451,11 +590,27 @@ def run_export_case(case, workdir):
         stok = lambda x: zlib.crc32(str(x).encode("utf-8"))  # noqa: E731
         want_logs = bool(case.get("logs", False))
         want_tables = bool(case.get("tables", False))
-        nlogs_src = len(list(ds.logs.keys()))
-        ntabs_src = len(list(ds.tables.keys()))
+        log_names = list(ds.logs.keys())
+        tab_names = list(ds.tables.keys())
+
+        def table_tokens(tab):
+            arr = gen.table_array(tab)
+            cols = list(arr.dtype.names or [])
+            rows = [stok(cols)]
+            for r in range(len(arr)):
+                rows.append(stok([float(arr[c][r]) for c in cols]
+                                 if cols else np.asarray(arr[r]).tolist()))
+            return rows
+        src_logs = [[stok(ln) for ln in ds.logs[nm]] for nm in log_names]
+        src_tabs = [table_tokens(ds.tables[nm]) for nm in tab_names]
+
+        def texts(lst):
+            return common.clist("(%d, %s)" % (i, zl(t))
+                                for i, t in enumerate(lst)) if lst \
+                else "(@nil (Z * list Z))"
         ch_src = ds.config["fluorescence"].get("channel count") \
             if "fluorescence" in ds.config else None
-        coq = "(%s, (%d, %s), (%d, %d, %d), (%s, %s, %d, %s, %s), (%s, %s))" % (
+        coq = "(%s, (%d, %s), (%d, %d, %d), (%s, %s, %d), (%s, %s), (%s, %s))" % (
             coq, fmode != "default",
             zl([names[f] for f in ds.features_innate if f in names]),
             want_logs, want_tables, basins,
@@ -463,7 +618,7 @@ def run_export_case(case, workdir):
             zl([stok(mid)] if rid_src is None and mid is not None
                          else []),
             stok(sample_src) if sample_src is not None else 0,
-            zl(range(nlogs_src)), zl(range(ntabs_src)),
+            texts(src_logs), texts(src_tabs),
             zl([int(ch_src)] if ch_src is not None else []),
             zl([names[f] for f in ("fl1_max", "fl2_max", "fl3_max")
                 if f in names]))
@@ -480,12 +635,16 @@ def run_export_case(case, workdir):
             return idx[idx < (ln if skip else lmin)]
         # --- run the implementation -----------------------------------------
         out = os.path.join(workdir, "out.rtdc")
+        py_spec = -1 if skip else (0 if not lens else (
+            len(exp_idx) if filtered else lmin))
         err = None
         try:
-            ds.export.hdf5(out, features=(None if fmode == "default"
-                                          else list(feats_req)),
+            ds.export.hdf5(out[:-5] if case.get("nosuffix") else out,
+                           features=(None if fmode == "default"
+                                     else list(feats_req)),
                            filtered=filtered,
                            logs=want_logs, tables=want_tables, basins=basins,
+                           meta_prefix=prefix,
                            skip_checks=skip, override=True)
         except NotImplementedError as e:
             err = (1, e)
@@ -496,7 +655,7 @@ def run_export_case(case, workdir):
         except Exception as e:
             err = (9, e)
         if err is not None:
-            res["flat"] = [1, err[0]]
+            res["flat"] = [1, err[0], py_spec]
             res["fail"] = "export raised %r" % (err[1],)
             rf = root_format(ds)
             no_filter_arr = (not filtered) and (
@@ -538,6 +697,14 @@ def run_export_case(case, workdir):
                     else:
                         toks = [tok(r) for r in ev[f][:]]
                     flat += [names[f], trrank.get(key, 0), len(toks)] + toks
+                    if toks and k != 2 and k != 3 and k != 1 and \
+                            not (k == 0 and f in UINT_FEATS):
+                        dso = ev[f][key] if f == "trace" else ev[f]
+                        if np.dtype(dso.dtype) != src_dtype[(f, key)]:
+                            fails.append(
+                                "feature %s%s is stored as %s, the source "
+                                "holds %s" % (f, "/" + key if key else "",
+                                              dso.dtype, src_dtype[(f, key)]))
                     e_idx = exp_for(len(src_tok[(f, key)]))
                     if k == 1:
                         want = list(range(1, len(e_idx) + 1))
@@ -576,13 +743,29 @@ def run_export_case(case, workdir):
             if isinstance(smp_out, bytes):
                 smp_out = smp_out.decode("utf-8")
             flat.append(stok(smp_out) if smp_out is not None else 0)
-            flat.append(len([k for k in h5.get("logs", {})
-                             if k.startswith("src_")
-                             and h5["logs"][k].size]))
-            flat.append(len([k for k in h5.get("tables", {})
-                             if k.startswith("src_")]))
+            hlogs = h5.get("logs", {})
+            htabs = h5.get("tables", {})
+            flat.append(len([k for k in prefixed(hlogs.keys(), prefix)
+                             if hlogs[k].size]))
+            flat.append(len(prefixed(htabs.keys(), prefix)))
+            for nm in log_names:
+                key = prefix + nm
+                lines = []
+                if want_logs and key in hlogs:
+                    try:
+                        lines = [stok(ln.decode("utf-8") if isinstance(
+                            ln, bytes) else ln) for ln in hlogs[key][:]]
+                    except UnicodeDecodeError:
+                        lines = [-5]
+                flat += [len(lines)] + lines
+            for nm in tab_names:
+                key = prefix + nm
+                rows = table_tokens(htabs[key][:]) \
+                    if (want_tables and key in htabs) else []
+                flat += [len(rows)] + rows
             ch_out = h5.attrs.get("fluorescence:channel count")
             flat += [0] if ch_out is None else [1, int(ch_out)]
+        flat.append(py_spec)
         res["flat"] = flat
         exp_count = len(exp_idx) if uniq else (
             int(mask.sum()) if filtered else src_count)
@@ -616,12 +799,23 @@ def run_export_case(case, workdir):
                                 ok = len(np.asarray(got[:])) == len(e_idx) \
                                     if kind_of(f) == 0 else True
                                 ok = ok and all(
-                                    gen.arr_equal(got[j], data[int(i)])
+                                    gen.arr_equal(got[j],
+                                                  truth_event(f, key, i))
                                     for j, i in enumerate(e_idx))
                                 if count_defined and f != "contour":
                                     ok = ok and len(got) == len(e_idx)
+                                if ok and count_defined and len(e_idx) and \
+                                        kind_of(f) >= 2:
+                                    # negative index and iteration
+                                    ok = gen.arr_equal(
+                                        got[-1], truth_event(f, key,
+                                                             e_idx[-1]))
+                                    if f == "contour":
+                                        ok = ok and sum(
+                                            1 for _ in got) == len(e_idx)
                             else:
-                                ok = all(gen.arr_equal(got[j], data[int(i)])
+                                ok = all(gen.arr_equal(got[j],
+                                                       truth_event(f, key, i))
                                          for j, i in enumerate(e_idx))
                             if not ok:
                                 fails.append("dclab: feature %s%s differs "
@@ -631,7 +825,7 @@ def run_export_case(case, workdir):
                 if m:
                     fails.append(m)
                 m = logs_tables_diff(ds, od, case.get("logs", False),
-                                     case.get("tables", False), truth)
+                                     case.get("tables", False), truth, prefix)
                 if m:
                     fails.append(m)
         except Exception as e:
@@ -658,10 +852,14 @@ def run_export_case(case, workdir):
                 res["coq"] = None      # the model keeps values unchanged
         nons = sum(len(exp_idx) for f in uniq if kind_of(f) >= 2)
         res["nontrivial"] = bool(nons >= 1 or (uniq and len(exp_idx) >= 2))
-        res["info"] = dict(nsel=int(len(exp_idx)), fmt=ds.format)
+        res["info"].update(nsel=int(len(exp_idx)), fmt=ds.format)
         return res
     finally:
         writer.CHUNK_SIZE_BYTES = old_cfg
+        try:
+            dclab.PolygonFilter.clear_all_filters()
+        except Exception:
+            pass
 
 
 RECT_RULES = {("imaging", "roi size x"), ("imaging", "roi size y"),
@@ -735,17 +933,23 @@ def meta_diff(ds, od, filtered):
     return None
 
 
-def logs_tables_diff(ds, od, logs, tables, truth=None):
+def prefixed(names, prefix):
+    """names that carry the prefix (the export's own log does not count)"""
+    return [k for k in names if k.startswith(prefix)
+            and not k.startswith("dclab-export_")]
+
+
+def logs_tables_diff(ds, od, logs, tables, truth=None, prefix="src_"):
     import numpy as np
     from . import gen
-    if truth is not None:
+    if truth is not None and "logs" in truth:
         # the source itself must show what was put into it
         for name, lines in truth["logs"].items():
             if name not in ds.logs.keys() or list(ds.logs[name]) != lines:
                 return "source log %s is not what was written" % name
         if logs:
             for name, lines in truth["logs"].items():
-                key = "src_" + name
+                key = prefix + name
                 try:
                     got = list(od.logs[key]) if key in od.logs.keys() else None
                 except Exception as e:
@@ -762,7 +966,7 @@ def logs_tables_diff(ds, od, logs, tables, truth=None):
                                 len(lines[bad[0]].encode()) if bad else -1))
         if tables:
             for name, (arr, attrs) in truth["tables"].items():
-                key = "src_" + name
+                key = prefix + name
                 if key not in od.tables.keys():
                     return "table %s not carried over" % name
                 xb = gen.table_array(od.tables[key])
@@ -780,18 +984,18 @@ def logs_tables_diff(ds, od, logs, tables, truth=None):
                                 name, k)
     if logs:
         for name in ds.logs.keys():
-            key = "src_" + name
+            key = prefix + name
             if key not in od.logs.keys():
                 return "log %s not carried over" % name
             if list(od.logs[key]) != list(ds.logs[name]):
                 return "log %s differs" % name
     else:
-        bad = [k for k in od.logs.keys() if k.startswith("src_")]
+        bad = prefixed(od.logs.keys(), prefix)
         if bad:
             return "logs %s stored although not requested" % bad
     if tables:
         for name in ds.tables.keys():
-            key = "src_" + name
+            key = prefix + name
             if key not in od.tables.keys():
                 return "table %s not carried over" % name
             xa = gen.table_array(ds.tables[name])
@@ -855,7 +1059,7 @@ def run_stacks_case(case, workdir):
             h5.close()
     esize = w * 4
     c = max(10, case["cfg"] // esize)
-    flat = [len(ch) for ch in chunks] + [-1]
+    flat = []
     for ch in chunks:
         flat += [int(r[0]) for r in ch]
     fail = None
@@ -864,8 +1068,8 @@ def run_stacks_case(case, workdir):
     if got.shape != want.shape or not np.array_equal(got, want):
         fail = ("concatenated stacks differ from data[indices]: %d events, "
                 "expected %d" % (len(got), len(want)))
-    elif any(len(ch) == 0 or len(ch) > c for ch in chunks):
-        fail = "a stack is empty or larger than the chunk size %d" % c
+    elif any(len(ch) == 0 for ch in chunks):
+        fail = "a stack is empty (the writer rejects empty data)"
     coq = "(%d, %d, %d, %s, %s)" % (case["route"], case["cfg"], esize,
                                      zl(int(v) for v in arr[:, 0]),
                                      zl(idx))
@@ -975,6 +1179,41 @@ def run_sff_case(case, workdir):
 
 
 # --------------------------------------------------------------------------
+# override=False on an existing file: OSError, file untouched
+# --------------------------------------------------------------------------
+def run_override_case(case, workdir):
+    import warnings
+    import numpy as np
+    import dclab
+    warnings.simplefilter("ignore")
+    os.makedirs(workdir, exist_ok=True)
+    ds = dclab.new_dataset({"deform": np.arange(1, 6) / 8,
+                            "area_um": np.arange(5.) + 1})
+    ds.config["setup"]["software version"] = "verifgen 1.0"
+    ext = ".tsv" if case["what"] == "tsv" else ".rtdc"
+    name = "exists" + ("" if case["nosuffix"] else ext)
+    target = os.path.join(workdir, "exists" + ext)
+    blob = b"precious bytes %d" % case["seed"]
+    with open(target, "wb") as fd:
+        fd.write(blob)
+    fail = None
+    try:
+        if case["what"] == "tsv":
+            ds.export.tsv(os.path.join(workdir, name), ["deform"],
+                          override=False)
+        else:
+            ds.export.hdf5(os.path.join(workdir, name), ["deform"],
+                           override=False)
+        fail = "export with override=False replaced an existing file"
+    except OSError:
+        pass
+    if fail is None and open(target, "rb").read() != blob:
+        fail = "export with override=False raised but changed the file"
+    return dict(flat=None, coq=None, fail=fail, finding=None, nontrivial=True,
+                info={})
+
+
+# --------------------------------------------------------------------------
 # tsv
 # --------------------------------------------------------------------------
 def ftok(v):
@@ -1012,8 +1251,7 @@ def run_tsv_case(case, workdir):
     for i in case["mask"]:
         if i < n:
             mask[i] = True
-    ds.filter.manual[:] = mask
-    ds.apply_filter()
+    mask, real_filter = apply_filters(ds, mask, case.get("filters"))
     req = [f for f in case["features"] if f.lower() in ds.features_scalar]
     if case.get("anc"):
         # features that are not stored but computed (ancillary)
@@ -1077,8 +1315,14 @@ def run_tsv_case(case, workdir):
                                     common.blist(mask), filtered,
                                     zl([names[f.lower()]
                                                   for f in req]))
+    try:
+        import dclab
+        dclab.PolygonFilter.clear_all_filters()
+    except Exception:
+        pass
     return dict(flat=flat, coq=coq, fail=fail, finding=None,
-                nontrivial=len(idx) >= 2 and len(uniq) >= 1, info={})
+                nontrivial=len(idx) >= 2 and len(uniq) >= 1,
+                info=dict(real_filter=real_filter))
 
 
 # --------------------------------------------------------------------------
@@ -1164,13 +1408,25 @@ def gen_export_case(rng, thorough=False):
             nch = rng.choice([1, 2, 3, 3])
             src["fl"] = dict(channels=nch,
                              count=rng.choice([None, nch, 3, 3, 2]))
+        if t != "basin" and rng.random() < 0.3:
+            src["wide"] = True          # int32 traces, a float32 scalar
+        if t != "basin" and rng.random() < 0.2:
+            src["qpi"] = True           # qpi_pha: float32 image feature
         nn = n
         if t.startswith("hier-"):
             src["parent_drop"] = sorted(rng.sample(range(n),
                                                    rng.randint(0, min(3, n - 1))))
             nn = n - len(src["parent_drop"])
+            if nn >= 2 and rng.random() < 0.5:
+                # grand-child
+                src["levels"] = 2
+                src["parent_drop2"] = sorted(rng.sample(
+                    range(nn), rng.randint(0, min(2, nn - 1))))
+                nn -= len(src["parent_drop2"])
         case["mask"] = pick_mask(rng, nn, c)
         avail = ["index"] + gen_feature_names(src)
+        if "mask" in kinds and "contour" not in kinds and t != "basin":
+            avail.append("contour")     # ancillary: computed from the mask
         k = rng.randint(1, min(6, len(avail)))
         feats = rng.sample(avail, k)
         if src.get("fl"):
@@ -1190,9 +1446,16 @@ def gen_export_case(rng, thorough=False):
             # unequal feature lengths; all-pass / real filter / unfiltered
             short = {}
             for f in avail:
-                if f in ("image", "image_bg", "mask", "trace") and \
-                        rng.random() < 0.7:
+                if f in ("image", "image_bg", "mask", "trace", "qpi_pha") \
+                        and rng.random() < 0.7:
                     short[f] = rng.randint(1, min(6, n - 1))
+            if "trace" in short and rng.random() < 0.7:
+                # traces of different lengths, the alphabetically first one
+                # (fl1_median) not being the shortest
+                a = rng.randint(0, min(4, n - 2))
+                short["trace"] = {"fl1_median": a,
+                                  "fl1_raw": a + rng.randint(1, min(
+                                      3, n - 1 - a))}
             scal = [f for f in avail if kind_of(f) == 0 and f != SCALAR_TEMP]
             if ALLOW_SHORT_SCALAR and scal and rng.random() < 0.3:
                 short[rng.choice(scal)] = rng.randint(1, min(3, n - 1))
@@ -1220,9 +1483,32 @@ def gen_export_case(rng, thorough=False):
     case["fmode"] = "default" if r < 0.12 else ("empty" if r < 0.18 else "list")
     if t in ("tdms", "hier-tdms") and case["fmode"] == "default":
         case["fmode"] = "list"
-    case["basins"] = bool(rng.random() < 0.3 and
-                          (len(case["mask"]) > 0 or not case["filtered"]))
+    case["basins"] = bool(rng.random() < 0.3)
+    case["prefix"] = rng.choice(["src_", "src_", "src_", "orig-", "", "x"])
+    case["nosuffix"] = rng.random() < 0.2
+    if rng.random() < 0.4:
+        case["filters"] = gen_filters(rng)
+        if src.get("short"):
+            case["skip_checks"] = False
     return case
+
+
+def gen_filters(rng):
+    """real filter settings on top of the manual mask"""
+    flt = {}
+    r = rng.random()
+    if r < 0.5:
+        flt["box"] = sorted([rng.choice([0, .1, .2, .3]),
+                             rng.choice([.6, .8, .9, .99])])
+    if rng.random() < 0.35:
+        flt["polygon"] = [rng.choice([.4, .7, 1.0]), rng.choice([.5, .8, 1.0])]
+    if rng.random() < 0.4:
+        flt["invalid"] = True
+    if rng.random() < 0.2:
+        flt["limit"] = rng.randint(1, 12)
+    if not flt:
+        flt["box"] = [0.2, 0.8]
+    return flt
 
 
 def gen_feature_names(src):
@@ -1235,6 +1521,8 @@ def gen_feature_names(src):
     names = sorted(set(spec["features"]) | set(
         "fl%d_max" % i for i in range(1, src.get("fl", {}).get("channels", 0)
                                       + 1)))
+    if src.get("qpi"):
+        names.append("qpi_pha")
     if src.get("temp"):
         names += [NONSCALAR_TEMP, SCALAR_TEMP]
     return names
@@ -1283,6 +1571,8 @@ def gen_tsv_case(rng, thorough=False):
     mask = pick_mask(rng, nn, max(2, nn // 2))
     case = dict(kind="tsv", src=src, mask=mask, features=feats,
                 filtered=rng.random() < 0.7)
+    if rng.random() < 0.5:
+        case["filters"] = gen_filters(rng)
     if rng.random() < 0.25:
         # ancillary features (aspect, circ, time, ...): values are not
         # dyadic, oracle only
@@ -1305,7 +1595,8 @@ def gen_tsv_real_case(rng):
 # --------------------------------------------------------------------------
 # driver
 # --------------------------------------------------------------------------
-RUNNERS = {"export": run_export_case, "sff": run_sff_case, "stacks": run_stacks_case,
+RUNNERS = {"export": run_export_case, "sff": run_sff_case,
+           "override": run_override_case, "stacks": run_stacks_case,
            "tsv": run_tsv_case}
 MODEL_FN = {"export": "export_full_flat", "sff": "sff_flat", "stacks": "stacks_flat",
             "tsv": "tsv_flat"}
@@ -1362,6 +1653,8 @@ def run(run):
     n_exp, n_st, n_tsv, n_real = ((1500, 1500, 400, 40) if run.thorough
                                   else (150, 160, 50, 6))
     cases += sff_grid(rng)
+    cases += [dict(kind="override", what=w, nosuffix=ns, seed=rng.randint(0, 99))
+              for w in ("hdf5", "tsv") for ns in (False, True)]
     cases += [gen_export_case(rng, run.thorough) for _ in range(n_exp)]
     cases += [gen_stacks_case(rng, run.thorough) for _ in range(n_st)]
     cases += [gen_tsv_case(rng, run.thorough) for _ in range(n_tsv)]
@@ -1371,8 +1664,18 @@ def run(run):
     for c, r in zip(cases, results):
         run.record_case(c, r["nontrivial"])
         run.count("kind:" + c["kind"])
+        if c["kind"] in ("export", "tsv") and c.get("filters"):
+            run.count("%s:real-filter:%s" % (
+                c["kind"], "differs-from-manual"
+                if r.get("info", {}).get("real_filter") else "same"))
         if c["kind"] == "export":
             run.count("src:" + c["src"]["type"])
+            for opt in ("wide", "qpi"):
+                if c["src"].get(opt):
+                    run.count("src-opt:" + opt)
+            if c["src"].get("levels", 1) >= 2:
+                run.count("src-opt:hierarchy-2-levels")
+            run.count("prefix:%r" % c.get("prefix", "src_"))
             run.count("filtered" if c["filtered"] else "unfiltered")
             run.count("nsel=%s" % bucket(r["info"].get("nsel")))
             for f in set(c["features"]):
@@ -1419,6 +1722,15 @@ def run(run):
                                shard=40 if kind == "export" else 100)
         for (c, r), m in zip(items, model):
             run.corr_checked += 1
+            if kind == "export":
+                # last number: export_guard (theorem C02_export_total_partial)
+                guard, m = m[-1], m[:-1]
+                if guard == 1:
+                    run.count("guard:true")
+                    if r["flat"][0] == 1:
+                        run.mismatch(c, ["export_guard holds"],
+                                     r["flat"][:3], what="guard")
+                        continue
             if m != r["flat"]:
                 run.mismatch(c, m[:200], r["flat"][:200])
 
